@@ -158,17 +158,26 @@ func TestC08_Save(t *testing.T) {
 		defer os.RemoveAll(dir)
 		h, _ := proc.NewHome(dir)
 		var model []savedEntry
-		start := rapid.SampledFrom([]string{"missing", "empty", "populated"}).Draw(t, "start")
+		start := rapid.SampledFrom([]string{"missing", "empty", "populated", "populated", "symlinked"}).Draw(t, "start")
 		switch start {
 		case "empty":
 			os.MkdirAll(filepath.Dir(h.Notebook()), 0o755)
 			os.WriteFile(h.Notebook(), nil, 0o644)
-		case "populated":
+		case "populated", "symlinked":
 			os.MkdirAll(filepath.Dir(h.Notebook()), 0o755)
 			// a hand-edited / imported notebook: entries may carry every field, incl. tags and a category
 			pre := []database.Command{{Command: "old one", Description: "kept", Keywords: []string{"k"}, Tags: []string{"backup", "sync"}, Niche: "files"}, {Command: "old two", Description: "also kept", Platform: []string{"linux"}, Pipeline: true, Tags: []string{"x y"}}}
 			os.WriteFile(h.Notebook(), gen.EmitYAML(pre), 0o644)
 			model = []savedEntry{{Command: "old one", Description: "kept", Keywords: []string{"k"}, Tags: []string{"backup", "sync"}, Niche: "files"}, {Command: "old two", Description: "also kept", Platform: []string{"linux"}, Pipeline: true, Tags: []string{"x y"}}}
+			if start == "symlinked" {
+				// the notebook lives in a dotfiles checkout; the configured path is a symbolic link to it
+				real := filepath.Join(dir, "dotfiles", "personal.yml")
+				os.MkdirAll(filepath.Dir(real), 0o755)
+				os.Rename(h.Notebook(), real)
+				if err := os.Symlink(real, h.Notebook()); err != nil {
+					t.Fatalf("harness: %v", err)
+				}
+			}
 		}
 		n := rapid.IntRange(1, 6).Draw(t, "saves")
 		hostile, replaced, multiline := false, false, false
